@@ -38,6 +38,10 @@ def run(ctx):
     ctx.rule("R03.e", "_register_watcher appends to / removes from the table paths the setter and _trigger_event read", floor=3)
     ctx.rule("R03.f", "_call_watcher: a watcher is skipped iff (not TRIGGER and onlychanged and not changed); otherwise queued iff batching else executed (32 abstract cases, exhaustive)", floor=1)
     ctx.rule("R03.h", "flush model (abstract interpretation on small queues): every queued watcher runs exactly once in (precedence, queue position) order with the last event per watched parameter; cascaded events are delivered in a further round", floor=1)
+    ctx.rule("R03.n", "the changes-only predicate is the comparator's verdict and nothing else: Parameters._changed interpreted abstractly on comparator says equal / different x old and new of the "
+                      "same / of different types answers `changed` iff the comparator says different (1 -> 1.0 and 0 -> False are not changes)", floor=1)
+    ctx.rule("R03.p", "registration model: Parameters._register_watcher interpreted abstractly (append / remove x instance / class x value / slot watcher x one / two parameters, with a second "
+                      "registration of equal fields already in the list): append adds the watcher once at the end of the lists the dispatchers read, remove takes away exactly one equal registration", floor=1)
     ctx.rule("R03.m", "setter model: Parameter.__set__ interpreted abstractly on every combination (576) of route x constant/readonly x validation outcome x identity x reference mode x watchers x batching agrees with the specification of this property (see checks/setter_model.py)", floor=1)
     ctx.rule("R03.t", "trigger model: Parameters.trigger interpreted abstractly (instance/class x names incl. an Event and an unknown name x an event and a watcher queued before x the update dispatches / queues / raises, 96 cases): update runs once, with the trigger flag raised and the parked queues empty, on the current values; on exit the flag is lowered, earlier queue entries survive, no watcher is queued twice; the write-back is inside a _syncing scope", floor=1)
     ctx.rule("R03.u", "update model: Parameters._update (behind update/trigger) flushes exactly once when outermost, never inside an enclosing batch, and only after the batching flag is lowered again, so that watchers called by the flush dispatch their own assignments depth-first", floor=1)
@@ -186,59 +190,62 @@ def run(ctx):
     ra = ctx.facts.local_aliases(rw)
     acts = [n for n in rc.live_nodes() for c in calls_in(n) if isinstance(c.func, ast.Call) and norm(c.func.func) == "getattr"
             and len(c.func.args) == 2 and norm(c.func.args[1]) == "action"]
-    ctx.require(acts, "_register_watcher no longer applies `action` to a watcher list")
-    inst_ok = cls_ok = False
+    if not acts:
+        ctx.info("R03.e", rw, rw.node, "_register_watcher no longer applies `action` through getattr(<list>, action): the path agreement is not decided structurally; "
+                                       "the registration model (R03.p) decides which lists are written")
+    else:
+        inst_ok = cls_ok = False
 
-    def table_path(n_, tgt):
-        """(root expression(s) by reaching definitions, index texts outermost-first)."""
-        idx = []
-        root = tgt
-        while isinstance(root, ast.Subscript):
-            idx.append(norm(root.slice))
-            root = root.value
-        roots = [root]
-        if isinstance(root, ast.Name):
-            roots = [d.ast.value for d in reaching_defs(rc, n_, root.id) if d.kind == "stmt" and isinstance(d.ast, ast.Assign)]
-        return roots, list(reversed(idx))
-    # (node whose path conditions apply, expression of the list the action is applied to)
-    items = []
-    for n_ in acts:
-        c = [c for c in calls_in(n_) if isinstance(c.func, ast.Call)][0]
-        tgt = c.func.args[0]
-        if isinstance(tgt, ast.Name):
-            for d in reaching_defs(rc, n_, tgt.id):
-                if d.kind == "stmt" and isinstance(d.ast, ast.Assign):
-                    items.append((d, d.ast.value))
+        def table_path(n_, tgt):
+            """(root expression(s) by reaching definitions, index texts outermost-first)."""
+            idx = []
+            root = tgt
+            while isinstance(root, ast.Subscript):
+                idx.append(norm(root.slice))
+                root = root.value
+            roots = [root]
+            if isinstance(root, ast.Name):
+                roots = [d.ast.value for d in reaching_defs(rc, n_, root.id) if d.kind == "stmt" and isinstance(d.ast, ast.Assign)]
+            return roots, list(reversed(idx))
+        # (node whose path conditions apply, expression of the list the action is applied to)
+        items = []
+        for n_ in acts:
+            c = [c for c in calls_in(n_) if isinstance(c.func, ast.Call)][0]
+            tgt = c.func.args[0]
+            if isinstance(tgt, ast.Name):
+                for d in reaching_defs(rc, n_, tgt.id):
+                    if d.kind == "stmt" and isinstance(d.ast, ast.Assign):
+                        items.append((d, d.ast.value))
+            else:
+                items.append((n_, tgt))
+        # names used by the function itself (so that renaming locals does not matter)
+        what_param = rw.params[3] if len(rw.params) > 3 else "what"
+        loop_vars = [norm(lp.target) for lp in ast.walk(rw.node) if isinstance(lp, ast.For)]
+        pn = loop_vars[0] if loop_vars else "parameter_name"
+        for n_, expr in items:
+            roots, idx = table_path(n_, expr)
+            conds = rc.conditions(n_)
+            if cond_holds(conds, "%s == 'value'" % what_param, True) and cond_holds(conds, "self_.self is not None", True):
+                if roots and all(ctx.facts.field_of(r, {}) == "private.watchers" for r in roots) and idx == [pn, what_param]:
+                    inst_ok = True
+            else:
+                if roots and all(norm(r) == "self_[%s].watchers" % pn for r in roots) and idx == [what_param]:
+                    cls_ok = True
+        srd = [a for a in ast.walk(f.node) if isinstance(a, ast.Subscript) and ctx.facts.field_of(a.value, aliases) == "private.watchers" and norm(a.slice) == "name"]
+        get_value = any(isinstance(c, ast.Call) and isinstance(c.func, ast.Attribute) and c.func.attr == "get" and c.args and norm(c.args[0]) in ("'value'",)
+                        for c in ast.walk(f.node))
+        if inst_ok and srd and get_value:
+            ctx.ok("R03.e", rw, acts[0], "instance value watchers: registered in and dispatched from <inst>._param__private.watchers[name]['value']")
         else:
-            items.append((n_, tgt))
-    # names used by the function itself (so that renaming locals does not matter)
-    what_param = rw.params[3] if len(rw.params) > 3 else "what"
-    loop_vars = [norm(lp.target) for lp in ast.walk(rw.node) if isinstance(lp, ast.For)]
-    pn = loop_vars[0] if loop_vars else "parameter_name"
-    for n_, expr in items:
-        roots, idx = table_path(n_, expr)
-        conds = rc.conditions(n_)
-        if cond_holds(conds, "%s == 'value'" % what_param, True) and cond_holds(conds, "self_.self is not None", True):
-            if roots and all(ctx.facts.field_of(r, {}) == "private.watchers" for r in roots) and idx == [pn, what_param]:
-                inst_ok = True
+            ctx.fail("R03.e", rw, acts[0], "instance value watchers are registered in a table path the setter does not read (or vice versa)")
+        cls_read = any(norm(a) == "self.watchers" for a in ast.walk(f.node) if isinstance(a, ast.Attribute))
+        te = ctx.repo.method(PARAMETER, "_trigger_event")
+        slot_read = any(norm(a) == "self.watchers[attribute]" for a in ast.walk(te.node) if isinstance(a, ast.Subscript))
+        if cls_ok and cls_read:
+            ctx.ok("R03.e", rw, acts[-1], "class/slot watchers: registered in <Parameter>.watchers[what]; the setter reads self.watchers")
         else:
-            if roots and all(norm(r) == "self_[%s].watchers" % pn for r in roots) and idx == [what_param]:
-                cls_ok = True
-    srd = [a for a in ast.walk(f.node) if isinstance(a, ast.Subscript) and ctx.facts.field_of(a.value, aliases) == "private.watchers" and norm(a.slice) == "name"]
-    get_value = any(isinstance(c, ast.Call) and isinstance(c.func, ast.Attribute) and c.func.attr == "get" and c.args and norm(c.args[0]) in ("'value'",)
-                    for c in ast.walk(f.node))
-    if inst_ok and srd and get_value:
-        ctx.ok("R03.e", rw, acts[0], "instance value watchers: registered in and dispatched from <inst>._param__private.watchers[name]['value']")
-    else:
-        ctx.fail("R03.e", rw, acts[0], "instance value watchers are registered in a table path the setter does not read (or vice versa)")
-    cls_read = any(norm(a) == "self.watchers" for a in ast.walk(f.node) if isinstance(a, ast.Attribute))
-    te = ctx.repo.method(PARAMETER, "_trigger_event")
-    slot_read = any(norm(a) == "self.watchers[attribute]" for a in ast.walk(te.node) if isinstance(a, ast.Subscript))
-    if cls_ok and cls_read:
-        ctx.ok("R03.e", rw, acts[-1], "class/slot watchers: registered in <Parameter>.watchers[what]; the setter reads self.watchers")
-    else:
-        ctx.fail("R03.e", rw, acts[-1], "class-level/slot watchers are registered in a table path the dispatchers do not read")
-    (ctx.ok if slot_read else ctx.fail)("R03.e", te, te.node, "_trigger_event iterates self.watchers[attribute]" if slot_read else "_trigger_event does not read self.watchers[attribute]")
+            ctx.fail("R03.e", rw, acts[-1], "class-level/slot watchers are registered in a table path the dispatchers do not read")
+        (ctx.ok if slot_read else ctx.fail)("R03.e", te, te.node, "_trigger_event iterates self.watchers[attribute]" if slot_read else "_trigger_event does not read self.watchers[attribute]")
 
     # ------------------------------------------------------------- R03.f
     from checks.dispatch_model import call_watcher_outcome
@@ -268,6 +275,42 @@ def run(ctx):
         ctx.fail("R03.f", cw, cw.node, "dispatch decision wrong for (TRIGGER=%s, onlychanged=%s, changed=%s, batching=%s): code does `%s`, specification `%s`" % bad[0])
     else:
         ctx.ok("R03.f", cw, cw.node, "32/32 abstract cases agree with the specification")
+
+    # ------------------------------------------------------------- R03.n
+    from engine.absint import Interp as _I, Obj as _O, Unsupported as _U
+    ch = ctx.repo.func(P + "Parameters._changed")
+    badn = None
+    for equal, same_type in itertools.product([True, False], repeat=2):
+        old_v, new_v = _O("old_value", kind="int"), _O("new_value", kind="int" if same_type else "float")
+
+        def hook_n(fn, args, kwargs, equal=equal):
+            if fn == "Comparator.is_equal" and len(args) == 2:
+                return equal
+            if fn == "type" and len(args) == 1 and isinstance(args[0], _O):
+                return args[0].attrs.get("kind")
+            if fn == "isinstance":
+                return True
+            return NotImplemented
+        it_n = _I(ctx.hier, dyn=P + "Parameters", inline=lambda m: True, call_hook=hook_n, strict_self_calls=True)
+        try:
+            outs = it_n.run_all(ch, {ch.params[0]: _O("ns"), ch.params[1]: _O("event", old=old_v, new=new_v)})
+        except _U as e:
+            raise AnalysisError("absint cannot interpret Parameters._changed: %s -- R03.n cannot decide" % e)
+        ctx.abstract_cases += 1
+        if len(outs) != 1 or outs[0].imprecise or outs[0].kind != "return" or outs[0].value not in (True, False):
+            raise AnalysisError("absint imprecise on Parameters._changed -- R03.n cannot decide")
+        if outs[0].value is not (not equal):
+            badn = (equal, same_type, outs[0].value)
+    if badn:
+        ctx.fail("R03.n", ch, ch.node, "Parameters._changed answers %s for values the comparator calls %s (%s type): %s" % (
+            badn[2], "equal" if badn[0] else "different", "same" if badn[1] else "different",
+            "a changes-only watcher is called although the value did not change (1 -> 1.0, 0 -> False)" if badn[2] else "a genuine change is not announced to changes-only watchers"),
+            key=ch.qualname + "::changed-predicate", input="p.x = 1; p.x = 1.0 -> a changes-only watcher is called with type='changed'")
+    else:
+        ctx.ok("R03.n", ch, ch.node, "4/4: changed iff the comparator says different")
+
+    from checks import register_model
+    register_model.report(ctx, "R03.p")
 
     # the model-level rule comes last: if the interpreter cannot follow an edited flush,
     # the structural findings above are still reported
